@@ -126,9 +126,10 @@ PROPS = {
         explain='The replay loop has a decreases clause (reader position, lexicographic); read_record guarantees progress unless it returns Ok(None) or Err(IoError); '
                 'at `continue` the error is therefore not an I/O error (O-C11-term). I/O errors leave the reader position unchanged (O-C11-fr-io, O-C11-rr-io). '
                 'RollingReader::next_block is verified against the BlockRead contract over the ghost FS model: Ok(true) only for the next block of the concatenation of all tracked files, '
-                'Ok(false) only when no tracked file holds another full block, so an I/O error of open_file/read_block can neither be turned into end-of-log nor skip a file (O-BR-next-*). Directory::open is verified to return Ok only if every entry of the listing was obtained without error (O-C11-open-listing-errors) and propagates file_type() errors with `?`.',
+                'Ok(false) only when no tracked file holds another full block, so an I/O error of open_file/read_block can neither be turned into end-of-log nor skip a file (O-BR-next-*). Directory::open is verified to return Ok only if every entry of the listing was obtained without error (O-C11-open-listing-errors) and propagates file_type() errors with `?`. '
+                'The loops of the reader stack (go_next, read_record, read_frame, go_to_next_block_if_necessary) carry decreases clauses tagged C11: no unbounded retry; io::Error::kind / io::ErrorKind are inside Verus (an uninterpreted function of the error), so a retry-on-kind arm is judged, not skipped.',
         kani_quick=[], kani_thorough=['E-fault'],
-        trusted=[FS], not_decided=['errors inside the FS primitives open_file / create_file (assumed to be returned as Err)'],
+        trusted=[FS, 'io::Error::kind is an uninterpreted function of the error (assumed contract)'], not_decided=['errors inside the FS primitives open_file / create_file (assumed to be returned as Err); the thorough tier injects one real fault (E-fault: a WAL file that cannot be opened) -- bounded'],
     ),
     'C12': dict(
         level='proof',
